@@ -65,7 +65,7 @@ type HarnessSpec struct {
 	Prop    string
 	Name    string
 	Fn      *ssa.Function
-	Pkg     string // "otp" | "api" | "wasm"
+	Pkg     string               // "otp" | "api" | "wasm"
 	Cases   map[string][]CaseDim // tier -> dims
 	Replace map[string]string
 	Opts    map[string]string
@@ -112,6 +112,7 @@ func (e *Exec) resetPath(dec []int64, no int) {
 	e.opaque["crosscheck"] = cross
 	e.opaque["pathno"] = no
 	e.pc = nil
+	e.pcKind = nil
 	e.decisions = dec
 	e.decPos = 0
 	e.alts = nil
@@ -130,6 +131,7 @@ func (e *Exec) resetPath(dec []int64, no int) {
 	e.epoch = 0
 	e.panicsSeen = nil
 	e.varTime = nil
+	e.prefers = nil
 	e.bigInts = map[*Cell]*bigVal{}
 	e.trailOn = true
 }
@@ -267,7 +269,25 @@ func exploreCase(prog *ssa.Program, hs *HarnessSpec, cases map[string]int64, bas
 		case "internal":
 			res.EngineError = fmt.Sprintf("path %d: %s", pr.No, pr.Msg)
 			res.Undecided = append(res.Undecided, fmt.Sprintf("path %d: %s: %s", pr.No, pr.Outcome, firstN(pr.Msg, 200)))
-		default: // unwind, unsupported, bound, steps
+		case "unwind":
+			if hs.Opts["unwind_is_violation"] != "" {
+				// the harness declares that no loop may run longer than the unwinding bound
+				// (work bounded independent of argument values): a feasible path that does is a violation
+				v := &Violation{Harness: hs.Name, Cases: cases, Name: "unwinding-bound", Path: pr.No, Detail: pr.Msg}
+				as := e.pcWith()
+				r := sol.Prove(e.tb, append(as, e.prefers...), e.wantTerms(), cfg.ProveTimeout)
+				if r.Status != "sat" {
+					r = sol.Prove(e.tb, as, e.wantTerms(), cfg.ProveTimeout)
+				}
+				if r.Status == "sat" {
+					v.Model = e.namedModel(r.Model)
+					v.Digests = e.digestsFromModel(r.Model)
+					res.Violations = append(res.Violations, v)
+					break
+				}
+			}
+			res.Undecided = append(res.Undecided, fmt.Sprintf("path %d: %s: %s", pr.No, pr.Outcome, firstN(pr.Msg, 300)))
+		default: // unsupported, bound, steps
 			res.Undecided = append(res.Undecided, fmt.Sprintf("path %d: %s: %s", pr.No, pr.Outcome, firstN(pr.Msg, 300)))
 		}
 		if len(res.Samples) < 3 && pr.Outcome == "complete" {
